@@ -402,6 +402,7 @@ req_compactor<T, C, A> req_compactor<T, C, A>::deserialize(std::istream& is, con
   read<uint16_t>(is); // padding
   auto num_items = read<uint32_t>(is);
   if (!is.good()) throw std::runtime_error("error reading from std::istream");
+  check_header(section_size_raw, lg_weight, num_sections);
   auto items = deserialize_items(is, serde, allocator, num_items);
   return req_compactor(hra, lg_weight, sorted, section_size_raw, num_sections, state, std::move(items), num_items,
       comparator, allocator);
@@ -414,6 +415,16 @@ req_compactor<T, C, A> req_compactor<T, C, A>::deserialize(std::istream& is, con
   auto items = deserialize_items(is, serde, allocator, num_items);
   return req_compactor(hra, 0, sorted, k, req_constants::INIT_NUM_SECTIONS, 0, std::move(items), num_items,
       comparator, allocator);
+}
+
+// a compactor never has fewer than one section, a section size below MIN_K or a weight beyond 2^63:
+// with zero sections the nominal capacity is zero and the item buffer can never grow
+template<typename T, typename C, typename A>
+void req_compactor<T, C, A>::check_header(float section_size_raw, uint8_t lg_weight, uint8_t num_sections) {
+  if (num_sections == 0 || !(section_size_raw >= req_constants::MIN_K) || lg_weight > 63) {
+    throw std::invalid_argument("Possible corruption: invalid compactor header: section size " + std::to_string(section_size_raw)
+        + ", number of sections " + std::to_string(num_sections) + ", lg weight " + std::to_string(lg_weight));
+  }
 }
 
 template<typename T, typename C, typename A>
@@ -466,6 +477,7 @@ std::pair<req_compactor<T, C, A>, size_t> req_compactor<T, C, A>::deserialize(co
   ptr += 2; // padding
   uint32_t num_items;
   ptr += copy_from_mem(ptr, num_items);
+  check_header(section_size_raw, lg_weight, num_sections);
   auto pair = deserialize_items(ptr, end_ptr - ptr, serde, allocator, num_items);
   ptr += pair.second;
   return std::pair<req_compactor, size_t>(
